@@ -8,7 +8,7 @@ from . import c11
 LEVEL = "proof"
 ASSUMPTIONS = ["positional groups are C11's; this property is about the allele filter on top of them"]
 RELS = ["Equality", "Intersects", "Subset"]
-ALTS = [[], ["C"], ["G"], ["C", "G"], ["G", "C"], ["C", "G", "T"], ["T"], [""]]     # [""]: a blank allele column is one (empty) allele
+ALTS = [[], ["C"], ["G"], ["C", "G"], ["G", "C"], ["C", "G", "T"], ["T"], [""], ["C", "C"], ["G", "C", "G"]]      # (a list may repeat an allele: the relations are set relations)     # [""]: a blank allele column is one (empty) allele
 
 
 MODE_TEXT = {"plain": "the inputs are the library's LocatableByAllele objects", "mixed": "the inputs mix real MafRecords and LocatableByAllele objects"}
